@@ -66,7 +66,7 @@ CLAIMS = {
          'number of such nodes. Uses two code-independent counting lemmas (degree of a masked matrix = degree restricted to the mask; restricted degree is monotone in the set). '
          'kcoreness_centrality_bu/_bd are proved modularly against the abstract results KC(CIJ,k), KN(CIJ,k) of the core routine (callee body not re-entered): loop invariant = every node\'s coreness is 0 or a level k '
          'already visited whose returned core contains the node, and no visited level >= 1 above it does; at exit coreness = the largest k < N whose core contains the node, kn[k] = the reported core size. '
-         'Nestedness (the (k+1)-core lies inside the k-core) of kcore_bu and kcore_bd is a corollary over their contracts: the maximality clause of the k-core, applied to the connected nodes of the (k+1)-core (contracts/corollaries.py; counting lemmas in Lean). The peel-order outputs and the nestedness of s-cores are bounded only (all graphs n<=5/4, every k, subset-enumeration oracle); in+out degree >= N for kcoreness_centrality_bd is a known finding.',
+         'Nestedness (the (k+1)-core lies inside the k-core; the s2-core inside the s1-core for s1 <= s2) of kcore_bu, kcore_bd and score_wu is a corollary over their contracts: the maximality clause of the k-core, applied to the connected nodes of the (k+1)-core (contracts/corollaries.py; counting lemmas in Lean). The peel-order outputs are bounded only (all graphs n<=5/4, every k, subset-enumeration oracle); in+out degree >= N for kcoreness_centrality_bd is a known finding.',
          PROOF_NOTE + ' Lemmas lemma_masked_degree, lemma_degree_monotone and the callee contracts of degrees_und/degrees_dir/strengths_und are assumed (code-independent statements).',
          'pyvc + z3 with ghost state and a Skolem set for maximality, modular caller contracts for the coreness routines; bounded subset-enumeration oracle for peel orders', '5/C15'),
  'C02': ('proof',
